@@ -65,6 +65,19 @@ const REPLACEMENTS: [(&str, &str); 43] = [
     ("\\esc_SK", "escaped-literal-variable"),
 ];
 
+/// (program, label): destructuring iterations; the ill-typed ones use a tuple component as a value of
+/// another kind and must be rejected by the type checker, the well-typed ones must pass both stages.
+const DESTRUCTURING: [(&str, &str); 8] = [
+    ("min sum((_, r) in enumerate(M), v in r) { v * x }\ns.t.\n    x >= 1\nwhere\n    let M = [[1, 2], [3, 4]]\ndefine\n    x as Real(0, 5)\n", "index-after-discard-used-as-row"),
+    ("min sum((r, _) in enumerate(M), v in r) { v * x }\ns.t.\n    x >= 1\nwhere\n    let M = [[1, 2], [3, 4]]\ndefine\n    x as Real(0, 5)\n", "row-before-discard-used-as-row(well-typed)"),
+    ("min x\ns.t.\n    x >= sum(e in neigh_edges_of(n, G)) { 1 } for (_, n) in enumerate([\"P\", \"Q\"])\nwhere\n    let G = Graph {\n        P -> [Q: 2],\n        Q\n    }\ndefine\n    x as Real(0, 5)\n", "index-after-discard-used-as-node-name"),
+    ("min x\ns.t.\n    x >= sum(e in neigh_edges_of(n, G)) { 1 } for (n, _) in enumerate([\"P\", \"Q\"])\nwhere\n    let G = Graph {\n        P -> [Q: 2],\n        Q\n    }\ndefine\n    x as Real(0, 5)\n", "name-before-discard-used-as-node-name(well-typed)"),
+    ("min x\ns.t.\n    x >= len(w) for (_, _, w) in edges(G)\nwhere\n    let G = Graph {\n        P -> [Q: 2],\n        Q\n    }\ndefine\n    x as Real(0, 5)\n", "weight-after-two-discards-used-as-array"),
+    ("min x\ns.t.\n    x >= w for (_, _, w) in edges(G)\nwhere\n    let G = Graph {\n        P -> [Q: 2],\n        Q\n    }\ndefine\n    x as Real(0, 5)\n", "weight-after-two-discards-used-as-number(well-typed)"),
+    ("min sum((_, b) in zip(A, S)) { len(b) * x }\ns.t.\n    x >= 1\nwhere\n    let A = [1, 2]\n    let S = [[1], [2, 3]]\ndefine\n    x as Real(0, 5)\n", "second-of-zip-after-discard-used-as-array(well-typed)"),
+    ("min sum((_, b) in zip(S, A)) { len(b) * x }\ns.t.\n    x >= 1\nwhere\n    let A = [1, 2]\n    let S = [[1], [2, 3]]\ndefine\n    x as Real(0, 5)\n", "number-after-discard-used-as-array"),
+];
+
 #[derive(Debug, Clone)]
 struct Token {
     start: usize,
@@ -353,7 +366,12 @@ impl Driver for C19 {
             }
             let _ = prog.consts.iter().any(|(_, v)| is_mixed(v));
             let base = with_escaped_literal(&with_extra_consts(&prog.text_p()));
-            let (text, label, pos) = if case % 6 == 0 {
+            // two cases per unit come from hand-written destructuring programs in which a component is
+            // used as a value of another kind (the name after a discarded `_` must keep its own kind)
+            let (text, label, pos) = if case >= 58 {
+                let k = (out.unit + case) % DESTRUCTURING.len();
+                (DESTRUCTURING[k].0.to_string(), DESTRUCTURING[k].1, "tuple-component".to_string())
+            } else if case % 6 == 0 {
                 (base.clone(), "unperturbed", "none".to_string())
             } else {
                 match perturb(&base, &mut rng) {
@@ -386,6 +404,13 @@ impl Driver for C19 {
                 continue;
             };
             match (tc, tr_err) {
+                (Err(e), tr) if label.ends_with("(well-typed)") => {
+                    out.violation(
+                        "well-typed-program-rejected-by-the-type-checker",
+                        &format!("the type checker rejects a well-typed destructuring program ({label}): {}", e.traced_error().lines().next().unwrap_or("")),
+                        json!({"program": text, "transform_error": tr.map(|e| e.traced_error())}),
+                    );
+                }
                 (Err(_), _) => {
                     out.tag("rejected-by-type-check");
                     out.tag(&format!("matrix:{pos}<-{label}:rejected"));
@@ -426,7 +451,7 @@ impl Driver for C19 {
         }
     }
     fn rule(&self) -> String {
-        "G-data programs (12 construct families, helper constants of every kind added to the where section) with one identifier or number token replaced by a value of another kind: string, boolean, array, nested array, graph, node list, edge list, array element, row, decimal, large integer, zero, negative, len/enumerate/zip calls with right and wrong arity or argument kinds, unknown function, undeclared identifier / compound name, neighbour query for a missing node, set functions and range() with wrong argument kinds, negated Booleans, a compound name whose only namesake is an escaped literal variable; one program in six is left unperturbed. Position classes: operand, array index, name index, range bound, iterator, argument, domain bound, where-value. Each text that parses is type-checked (PreModel::create_type_checker) and transformed (PreModel::transform); if the check accepts and the transform fails, the base error is classified: wrong argument type/count, operator not applicable to its operand kinds, unspreadable value, unknown function, statically undeclared variable are type-class; out of range, too large, duplicate declaration, overflow / division by zero on numeric operands, tuple length, missing graph node are data-dependent. non-trivial = accepted program (transformed or failed data-dependently)".into()
+        "G-data programs (12 construct families, helper constants of every kind added to the where section) with one identifier or number token replaced by a value of another kind: string, boolean, array, nested array, graph, node list, edge list, array element, row, decimal, large integer, zero, negative, len/enumerate/zip calls with right and wrong arity or argument kinds, unknown function, undeclared identifier / compound name, neighbour query for a missing node, set functions and range() with wrong argument kinds, negated Booleans, a compound name whose only namesake is an escaped literal variable; one program in six is left unperturbed; two cases per unit are hand-written destructuring programs (a component after a discarded `_` used as a value of its own kind - must pass - or of a neighbouring component's kind - must be rejected). Position classes: operand, array index, name index, range bound, iterator, argument, domain bound, where-value. Each text that parses is type-checked (PreModel::create_type_checker) and transformed (PreModel::transform); if the check accepts and the transform fails, the base error is classified: wrong argument type/count, operator not applicable to its operand kinds, unspreadable value, unknown function, statically undeclared variable are type-class; out of range, too large, duplicate declaration, overflow / division by zero on numeric operands, tuple length, missing graph node are data-dependent. non-trivial = accepted program (transformed or failed data-dependently)".into()
     }
     fn thresholds(&self, tier: Tier) -> Thresholds {
         let s = tier.pick(10, 100);
